@@ -189,3 +189,95 @@ func x06RandomLca(rng *rand.Rand, t *x06Tax, synonyms bool) []x06LcaRec {
 	}
 	return recs
 }
+
+// -------------------------------------------------------------------------------------- replay
+
+func x06InAcc(acc []x06Acc, c, v int) bool {
+	for _, a := range acc {
+		if a.C == c && a.Lo <= v && v <= a.Hi {
+			return true
+		}
+	}
+	return false
+}
+
+func x06IndexOf(l []string, s string) int {
+	for i, x := range l {
+		if x == s {
+			return i
+		}
+	}
+	return -1
+}
+
+// x06ReplayLca: one exported --add-lca-in case: per record the answer must be one of the exported acceptable answers,
+// the attribute names one of the exported sets of names.
+func x06ReplayLca(env *Env, bindir, dir string, c *x06Case) {
+	e := &c.Exp
+	ev := x06DoLca(bindir, dir, "k"+strconv.Itoa(c.K), e.Slot, e.Tol, e.LRecs)
+	class := ev.Class
+	cl := fmt.Sprintf("obiannotate --add-lca-in %s --lca-error %.3f", e.Slot, float64(e.Tol)/1000)
+	if ev.Rc != 0 || ev.Err != "" {
+		env.fail("X06.lca.failed", class, x06Trunc(fmt.Sprintf("%s: exit %d: %s", cl, ev.Rc, ev.Err)), c)
+		return
+	}
+	known := false
+	for i, r := range e.LRecs {
+		o := ev.Obs[i]
+		what := fmt.Sprintf("%s: record %d (bag %v, as taxid=%v): written %d time(s) with %v=%v %v=%q %v=%v maps %v; acceptable %v, names %v",
+			cl, i+1, r.Bag, r.AsTaxid, o.N, o.Ik, o.Iv, o.Sk, o.Sv, o.Fk, o.Fv, o.Mk, e.Acc[i], e.KeySets[i])
+		if o.N != 1 {
+			env.fail("X06.lca.record", class, what, c)
+			return
+		}
+		keys := append(append(append(append([]string{}, o.Ik...), o.Sk...), o.Fk...), o.Mk...)
+		sort.Strings(keys)
+		okKeys := false
+		for _, ks := range e.KeySets[i] {
+			w := append([]string{}, ks...)
+			sort.Strings(w)
+			okKeys = okKeys || strings.Join(w, "\x00") == strings.Join(keys, "\x00")
+		}
+		jt, jn := x06IndexOf(o.Ik, e.Keys["taxid"]), x06IndexOf(o.Sk, e.Keys["name"])
+		v := -1
+		if j := x06IndexOf(o.Fk, e.Keys["error"]); j >= 0 {
+			v = o.Fv[j]
+		} else if j := x06IndexOf(o.Ik, e.Keys["error"]); j >= 0 {
+			v = 1000 * o.Iv[j]
+		}
+		if !okKeys || jt < 0 || jn < 0 || v < 0 {
+			env.fail("X06.lca.attribute_names", class, what, c)
+			return
+		}
+		ans := o.Iv[jt]
+		switch {
+		case x06InAcc(e.Acc[i], ans, v):
+		case x06InAcc(e.AccWritten[i], ans, v):
+			known = true
+		default:
+			env.fail("X06.lca.answer", class, what, c)
+			return
+		}
+		if ans < 1 || ans > len(c.Name) || o.Sv[jn] != c.Name[ans-1] {
+			env.fail("X06.lca.name", class, what, c)
+			return
+		}
+		if r.AsTaxid && e.Keys["taxid"] != "taxid" {
+			if j := x06IndexOf(o.Ik, "taxid"); j < 0 || o.Iv[j] != r.Bag[0][0] {
+				env.fail("X06.lca.taxid_changed", class, what, c)
+				return
+			}
+		}
+		if len(e.Acc[i]) > 1 {
+			env.ok("scn.lca_several_acceptable")
+		}
+		if v > 0 {
+			env.ok("scn.lca_error_reported")
+		}
+	}
+	if known {
+		x06Known(env, "X06.known.lca_synonym_weight_lost", class, cl+": the weights of two taxids that mean the same taxon are not added", c)
+		return
+	}
+	env.ok(class)
+}
